@@ -26,8 +26,8 @@ CLAIMED.update({
             "Channel FIFO-ness and the single-producer/single-consumer structure are runtime/structural assumptions (DESIGN §7 C07).", "§7 C07"),
     "C08": ("Sequential Stop-contract obligations: IngestRows and Flush return ErrEngineStopped and send nothing whenever they observe stopped; handleFlush with the flush context already done performs no CreateFile/Update and produces no success acknowledgement, while still attempting every waiter.",
             "Timing ('by roughly that deadline'), late AfterFunc callbacks and Stop's own body are not yet under contract (DESIGN §7 C08).", "§7 C08"),
-    "C09": ("Mechanism obligations: IngestRows accepts only by a completed send on ingestChan; triggerFlush's hand-off to the flush worker is a blocking select (enqueue or abandon, never a silent drop).",
-            "Channel capacities set by the constructor and the composition of the bound are not yet under contract (DESIGN §7 C09).", "§7 C09"),
+    "C09": ("Mechanism obligations: IngestRows accepts only by a completed send on ingestChan; triggerFlush's hand-off to the flush worker is a blocking select (enqueue or abandon, never a silent drop); the constructor gives the queues exactly the configured capacities (ingestChan = IngestBufferSize, flushChan = 1, query semaphore = MaxQueryConcurrency) and Start spawns the two workers exactly once; the buffer-level counters are truthful — while a batch is buffered *bufferedBytes advances by exactly the bytes handed to the partitions' compression stages and *bufferedRowCount by one per row, whatever partitions the batch touches (loop invariants of the three nested buffering loops) — so MaxBufferedRows / MaxBufferedBytes bound what the actor really holds.",
+            "The composition of the bound (ingest buffer + a few flushes' worth) from these mechanism obligations is on paper (DESIGN §7 C09). Hypotheses at the top of the chain: the two counters are different variables, every buffered partition's compression stage is not an output file's writer.", "§7 C09"),
     "C13": ("Merge commit protocol proved for every outcome of every store call: executeMergeGroup returns a pointer only after Close returned nil and otherwise tombstones exactly its own output; merge calls Update at most once, only after every group's output was closed successfully and before any tombstone; without a commit the number of tombstones equals the number of created outputs (every orphan removed, no source touched); the three result shapes (nil / stats+nil / stats+ErrPostCommitCleanup) imply what the property says; Merge is single-flight (TryLock failure does no store work, lock released once on every path).",
             "Ghost counters via extern store contracts (assumed). Actual contention between goroutines is sync.Mutex's contract.", "§7 C13"),
     "C27": ("Frame condition for the whole package discharged on every run by reachability over go/ssa (static calls, closures, class-hierarchy interface resolution over bloomsearch and its module dependencies, constant-branch pruning): no function reachable from the exported API references os.Stdout/os.Stderr, calls print/println, or calls a standard-library stdout/stderr sink; plus the constructor obligation that the logger field is config.Logger or slog.New(slog.DiscardHandler) under a nil test.",
@@ -39,7 +39,7 @@ CLAIMED.update({
             "matchRowBytes' own contract is assumed (gjson-bound body); matcher tree semantics and end-to-end multiset equality are not yet under contract (DESIGN §7 C02).", "§7 C02"),
     "C03": ("Ownership obligations: materializeRow never takes a zero-copy view (ghost count of unsafeString calls unchanged: delivered rows are parsed from an independent copy); scan-buffer typestate (bufOwned) proved for getScanBuffer/putScanBuffer/readChunkFrom/filtersFor/release: a pooled buffer is returned at most once and the cursor never keeps a buffer it returned; the row data readPooledBlockRowData hands to a scan is a buffer still checked out of the pool (it has not been handed back, for every compression setting incl. the legacy empty one).",
             "JSON fidelity versus encoding/json is not decided by contracts (bounded stand-in planned, DESIGN §7 C03); sync.Pool content invariant assumed (extern).", "§7 C03"),
-    "C20": ("Sequential state machine of the cursor proved: finish/terminate/Close's once-body decide err at most once (a decided terminal state is never overwritten), Next after completion returns false and changes nothing, every false return leaves a terminal state, and a cancellation observed by terminate yields an error wrapping the caller context's error.",
+    "C20": ("Sequential state machine of the cursor proved: finish/terminate/Close's once-body decide err at most once (a decided terminal state is never overwritten), Next after completion returns false and changes nothing, every false return leaves a terminal state, and a cancellation observed by terminate yields an error wrapping the caller context's error; newResults stores the CALLER's context as callerCtx (a deliberate Close cancels only the derived context), starts undecided and buffers queryRowBatchBuffer batches.",
             "Timing of Close versus Next across goroutines and 'eventually' are not decided (DESIGN §7 C20). context/fmt.Errorf externs assumed.", "§7 C20"),
     "C21": ("Pairing and pool obligations: processDataBlock hands back (put or discard) every handle it acquired exactly once on every path, puts only after a successful read; fileHandlePool.acquire/put/release/retain/closeAll/closeHandles/discard proved against precise frames (they write only pool state), never close under the lock, close exactly the handles they must (closeHandles: one Close per handle); querySlot.acquire/release keep 'held <=> one token' so a failed acquire never leaks a token.",
             "Goroutine termination and iterator return are not decided; evaluateBlockFilters' pairing is next (DESIGN §7 C21).", "§7 C21"),
@@ -50,7 +50,7 @@ CLAIMED.update({
 })
 
 CLAIMED.update({
-    "C10": ("Limit obligation on the ingest actor's step function: whenever processIngestRequest returns having retained the batch's waiter without calling triggerFlush, both buffer-level counters are strictly below MaxBufferedRows and MaxBufferedBytes (so reaching either limit flushes in the same call), for every batch shape and configuration.",
+    "C10": ("Limit obligation on the ingest actor's step function: whenever processIngestRequest returns having retained the batch's waiter without calling triggerFlush, both buffer-level counters are strictly below MaxBufferedRows and MaxBufferedBytes (so reaching either limit flushes in the same call), for every batch shape and configuration; partition-level limits: while no flush has been decided, every partition the batch has finished buffering into is below MaxRowGroupRows and MaxRowGroupBytes (inductive invariant of the partition loop, carried through the row and index loops) — a partition reaching either limit makes the same call decide to flush; the buffering clock starts with the first retained batch and is never restarted.",
             "The ticker-driven time bound is a timing statement and is not decided; partition-level limits are covered only through the same post-state (DESIGN §7 C10).", "§7 C10"),
     "C24": ("Pruning obligations proved per function: FilterDataBlocks returns only blocks the prefilter admits (each result is one of the inputs and passed TestBlockPrefilter); the file stage dispatches a file only with a non-empty admitted block list and, with bloom conditions, a positive file-filter verdict; evaluateBlockFilters acquires no handle and opens nothing when the query has no bloom/regex conditions; the chunk reader and row-data readers read only inside the extents the metadata declares (readFullAt assertion, validSection/checkExtentWithinFile contracts).",
             "Store read log is ghost (opens/hAcquired counters via extern contracts, assumed). Bloom library Test is an extern (DESIGN §7 C24).", "§7 C24"),
